@@ -14,17 +14,22 @@
 (*  "evchurn"  Hook / Unhook / Trigger from several goroutines, calls logged inside the hooks.              *)
 (*  "promise"  OnTrigger / unsubscribe / Trigger from several goroutines on one promise event.              *)
 (*  "notifier" Listener / Notify / Deregister / Wait from several goroutines on a few values.              *)
+(*  "poolq"    forced schedule: hooks that run on a one-worker pool; the worker is held inside the first     *)
+(*             call while further Triggers queue their calls; then hooks are unhooked (explicitly or by      *)
+(*             using up a max trigger count); the worker is released and the pool drains. Every call that    *)
+(*             a Trigger owed when it was called is delivered exactly once, however late it runs.            *)
 EXTENDS Integers, Sequences, FiniteSets, TLC
 
 VARIABLES cfg, S, ev
 vars == <<cfg, S, ev>>
 View == <<cfg, S>>
-Cfgs == [kind : {"evmax", "evchurn", "promise", "notifier"}]
+Cfgs == [kind : {"evmax", "evchurn", "promise", "notifier", "poolq"}]
 
 Start(c) ==
   CASE c.kind = "evmax"    -> [rounds |-> 0]
     [] c.kind = "evchurn"  -> [HB |-> {}, HE |-> {}, UB |-> {}, UE |-> {}, TB |-> {}, TE |-> {}, must |-> {}, forb |-> {}, called |-> {}]
     [] c.kind = "promise"  -> [RB |-> {}, RE |-> {}, UB |-> {}, early |-> {}, ntb |-> 0, TV |-> {}, trues |-> 0, win |-> {}, ran |-> {}, vals |-> {}]
+    [] c.kind = "poolq"    -> [H |-> {}, mx |-> <<>>, UB |-> {}, nt |-> 0, owed |-> {}, called |-> {}]
     [] c.kind = "notifier" -> [LV |-> {}, LE |-> {}, NF |-> {}, okn |-> {}, DB |-> {}, DE |-> {}, fq |-> {}, fin |-> {}, W |-> {}, CN |-> {}, FC |-> {}]
 Init == /\ cfg \in Cfgs /\ S = Start(cfg) /\ ev = [op |-> "reset", cfg |-> cfg]
 
@@ -79,6 +84,27 @@ Do(s) ==
                       /\ s.a \in InFlight /\ UNCHANGED cfg
                       /\ \A p \in S.must : p[2] = s.a => p \in S.called
                       /\ S' = [S EXCEPT !.TE = @ \cup {s.a}] /\ ev' = s
+    (* ===== poolq ===== *)
+    [] s.op = "qhook" -> \* pooled hook h is attached (Hook returned), with max trigger count s.m (0 = none)
+                      /\ cfg.kind = "poolq" /\ s.h \notin S.H /\ UNCHANGED cfg
+                      /\ S' = [S EXCEPT !.H = @ \cup {s.h}, !.mx = @ @@ (s.h :> s.m)] /\ ev' = s
+    [] s.op = "qtrig" -> \* Trigger(a) was called and has returned: it owes a call to every hook that is attached, not unhooked,
+                      \* and whose max trigger count is not used up by the triggers before it
+                      /\ cfg.kind = "poolq" /\ UNCHANGED cfg
+                      /\ LET live == {h \in S.H \ S.UB : S.mx[h] = 0 \/ S.nt < S.mx[h]} IN
+                         S' = [S EXCEPT !.nt = @ + 1, !.owed = @ \cup Pairs(live, {s.a})]
+                      /\ ev' = s
+    [] s.op = "qunhook" -> \* Unhook(h) was called and has returned (no Trigger is running): later triggers owe it nothing
+                      /\ cfg.kind = "poolq" /\ s.h \in S.H /\ UNCHANGED cfg
+                      /\ S' = [S EXCEPT !.UB = @ \cup {s.h}] /\ ev' = s
+    [] s.op = "qcall" -> \* hook h runs with argument a on the pool (logged inside the callback)
+                      /\ cfg.kind = "poolq" /\ UNCHANGED cfg
+                      /\ <<s.h, s.a>> \in S.owed /\ <<s.h, s.a>> \notin S.called       \* only what is owed, exactly once
+                      /\ S' = [S EXCEPT !.called = @ \cup {<<s.h, s.a>>}] /\ ev' = s
+    [] s.op = "qdrained" -> \* the pool has no pending task and every goroutine is parked: everything owed was delivered
+                      /\ cfg.kind = "poolq" /\ UNCHANGED <<cfg, S>> /\ s.hung = FALSE
+                      /\ S.owed = S.called
+                      /\ ev' = s
     (* ===== promise ===== *)
     [] s.op = "rb" -> /\ cfg.kind = "promise" /\ UNCHANGED cfg /\ S' = [S EXCEPT !.RB = @ \cup {s.c}] /\ ev' = s
     [] s.op = "re" -> /\ s.c \in S.RB /\ UNCHANGED cfg /\ S' = [S EXCEPT !.RE = @ \cup {s.c}] /\ ev' = s
